@@ -5,7 +5,7 @@
 // stdin, one request per line:
 //   M seed feat nbody variant       model + random state -> mj_forward -> dump (see below) -> mj_step
 //       dump: C per control (ctrllimited lo hi ctrl), O per output (length velocity force), A per actuator, T tendons,
-//       MOM nout x nv moment, DOF per dof, Q qfrc_actuator, AD act_dot, N act after the step
+//       MOM nout x nv moment, DOF per dof, Q qfrc_actuator, AD act_dot, 4 x N: act after each of four steps
 //   G len vel lr0 lr1 acc0 prm[9]   mju_muscleGain
 //   B len lr0 lr1 acc0 prm[9]       mju_muscleBias
 //   D ctrl act p0 p1 p2             mju_muscleDynamics
@@ -104,6 +104,31 @@ static void model_case(unsigned long long seed, unsigned feat, int nbody, int va
       if (mjg_chance(r, 0.3)) { a->ctrllimited = mjLIMITED_TRUE; a->ctrlrange[0] = 0; a->ctrlrange[1] = 1; }
     }
   }
+  // activation-range stratum: stateful actuators of every dyntype (integrator, filter, filterexact, muscle) with an
+  // ASYMMETRIC actrange, no (or a wider) ctrlrange, time constants of the order of the timestep; their state is later
+  // put at / next to / beyond an end of the range with a control pushing outwards
+  int nedge = nscal > 0 ? 1 + mjg_int(r, 3) : 0;
+  for (int k = 0; k < nedge; k++) {
+    mjsActuator* a = mjs_addActuator(s, NULL);
+    char nmb[32]; snprintf(nmb, sizeof(nmb), "edge%d", k); mjs_setName(a->element, nmb);
+    a->trntype = mjTRN_JOINT;
+    mjs_setString(a->target, mjs_getString(mjs_getName(scal[mjg_int(r, nscal)]->element)));
+    a->gaintype = mjGAIN_FIXED; a->gainprm[0] = mjg_range(r, 0.5, 2);
+    a->biastype = mjg_chance(r, 0.5) ? mjBIAS_NONE : mjBIAS_AFFINE; a->biasprm[1] = -mjg_range(r, 0, 1);
+    int dt = (variant + k) % 4;
+    a->dyntype = dt == 0 ? mjDYN_INTEGRATOR : dt == 1 ? mjDYN_FILTER : dt == 2 ? mjDYN_FILTEREXACT : mjDYN_MUSCLE;
+    double h = s->option.timestep;
+    a->dynprm[0] = mjg_range(r, 0.5 * h, 5 * h); a->dynprm[1] = mjg_range(r, 0.5 * h, 5 * h); a->dynprm[2] = mjg_chance(r, 0.5) ? 0 : 0.2;
+    a->actlimited = mjLIMITED_TRUE;
+    int shape = mjg_int(r, 3);
+    if (a->dyntype == mjDYN_MUSCLE || shape == 0) { a->actrange[0] = mjg_range(r, 0.05, 0.3); a->actrange[1] = mjg_range(r, 0.4, 0.8); }
+    else if (shape == 1) { a->actrange[0] = -mjg_range(r, 0.1, 0.9); a->actrange[1] = mjg_range(r, 0.05, 0.3); }
+    else { a->actrange[0] = -mjg_range(r, 0.5, 0.9); a->actrange[1] = -mjg_range(r, 0.05, 0.3); }
+    if (mjg_chance(r, 0.3)) { a->ctrllimited = mjLIMITED_TRUE; a->ctrlrange[0] = -8; a->ctrlrange[1] = 8; }
+    a->actearly = mjg_chance(r, 0.5);
+    a->group = 12 + k;        // never disabled by the masks below
+    a->gear[0] = mjg_range(r, 0.5, 2);
+  }
   int mask = 0;
   for (int g = 0; g < 6; g++) if (mjg_chance(r, 0.3)) mask |= 1 << g;
   if (mjg_chance(r, 0.3)) mask |= 1 << 30;
@@ -136,6 +161,18 @@ static void model_case(unsigned long long seed, unsigned feat, int nbody, int va
     if (m->actuator_dyntype[i] == mjDYN_MUSCLE) { d->ctrl[c] = mjg_range(r, -0.5, 1.5); }
     else if (mjg_chance(r, 0.4)) d->ctrl[c] = mjg_range(r, -8, 8);      // saturating controls
     if (m->actuator_actnum[i] == 1 && m->actuator_dyntype[i] == mjDYN_MUSCLE) d->act[m->actuator_actadr[i]] = mjg_range(r, -0.2, 1.2);
+  }
+  for (int k = 0; k < nedge; k++) {
+    char nmb[32]; snprintf(nmb, sizeof(nmb), "edge%d", k);
+    int i = mj_name2id(m, mjOBJ_ACTUATOR, nmb);
+    if (i < 0 || m->actuator_actnum[i] != 1) continue;
+    int adr = m->actuator_actadr[i], c = m->actuator_ctrladr[i];
+    double lo = m->actuator_actrange[2 * i], hi = m->actuator_actrange[2 * i + 1];
+    int up = m->actuator_dyntype[i] == mjDYN_MUSCLE ? 1 : mjg_chance(r, 0.5);
+    int where = mjg_int(r, 4);     // exactly at the end, just inside, beyond, or well inside
+    double end = up ? hi : lo, in = up ? -1 : 1;
+    d->act[adr] = where == 0 ? end : where == 1 ? end + in * 1e-3 : where == 2 ? end - in * mjg_range(r, 0.05, 0.3) : end + in * 0.5 * (hi - lo);
+    d->ctrl[c] = m->actuator_dyntype[i] == mjDYN_MUSCLE ? mjg_range(r, 0.9, 1.5) : end - in * mjg_range(r, 1, 5);
   }
   // supported subset of the model; the output layout must be the cumulative one
   int ok = nact > 0, ocum = 0, ccum = 0;
@@ -198,8 +235,10 @@ static void model_case(unsigned long long seed, unsigned feat, int nbody, int va
   printf("\n");
   printf("Q"); pv(d->qfrc_actuator, nv); printf("\n");
   printf("AD"); pv(d->act_dot, na); printf("\n");
-  mj_step(m, d);
-  printf("N"); pv(d->act, na); printf("\n");
+  for (int k = 0; k < 4; k++) {       // controls held, four steps
+    mj_step(m, d);
+    printf("N"); pv(d->act, na); printf("\n");
+  }
   mj_deleteData(d); mj_deleteModel(m); mj_deleteSpec(s);
 }
 
